@@ -384,5 +384,10 @@ class Gen(object):
         self.initial_rules = list(self.rules)
         ops = self.ops()
         nsweep = self.rng.choice([1, 1, 2, 4, 8]) if self.nops <= 40 else self.rng.choice([4, 8, 16])
+        if any(o["op"] in ("add_pages_seq", "create_many") or o.get("repeat") for o in ops):
+            # a big corpus: sweep it once, at the end, and keep what follows it short
+            nsweep = 0
+            k_ = [i for i, o in enumerate(ops) if o["op"] in ("add_pages_seq", "create_many") or o.get("repeat")][0]
+            ops = ops[: k_ + 4]
         cfg = self.config(sweep_every=nsweep, **extra)
         return {"prop": self.prop, "seed": seed, "obs_seed": self.rng.getrandbits(32), "config": cfg, "ops": ops}
